@@ -152,6 +152,48 @@ pub fn suites(check: &str, thorough: bool) -> (Vec<SeqSuite>, String) {
                     observe: false,
                 },
                 SeqSuite {
+                    name: "c16-two-sends",
+                    alphabet: vec![
+                        Op::FSend(0),
+                        Op::FSend(1),
+                        Op::Poll(0, 0),
+                        Op::Poll(0, 1),
+                        Op::Poll(1, 0),
+                        Op::Poll(1, 1),
+                        Op::FDrop(0),
+                        Op::FDrop(1),
+                        Op::TryRecv,
+                        Op::Close(Side::S),
+                    ],
+                    depth: if thorough { 7 } else { 6 },
+                    caps: vec![Cap::B(0), Cap::B(1)],
+                    flavours: vec![(A, A)],
+                    class: Class::DL,
+                    ctor: A,
+                    observe: false,
+                },
+                SeqSuite {
+                    name: "c16-two-recvs",
+                    alphabet: vec![
+                        Op::FRecv(0),
+                        Op::FRecv(1),
+                        Op::Poll(0, 0),
+                        Op::Poll(0, 1),
+                        Op::Poll(1, 0),
+                        Op::Poll(1, 1),
+                        Op::FDrop(0),
+                        Op::FDrop(1),
+                        Op::TrySend,
+                        Op::Close(Side::R),
+                    ],
+                    depth: if thorough { 7 } else { 6 },
+                    caps: vec![Cap::B(0), Cap::B(1)],
+                    flavours: vec![(A, A)],
+                    class: Class::DP,
+                    ctor: A,
+                    observe: false,
+                },
+                SeqSuite {
                     name: "c16-stream",
                     alphabet: vec![
                         Op::FStream(0),
